@@ -173,13 +173,18 @@ async fn read_http_header(stream: &mut TcpStream) -> Result<(Vec<u8>, Vec<u8>)> 
             ));
         }
         buf.extend_from_slice(&tmp[..n]);
-        if buf.len() > MAX_HEADER_SIZE {
-            return Err(AnyTlsError::Protocol("HTTP header too large".to_string()));
-        }
         if let Some(end) = find_header_end(&buf) {
+            // The limit is on the header block; body bytes that happen to arrive in the
+            // same read must not count against it.
+            if end > MAX_HEADER_SIZE {
+                return Err(AnyTlsError::Protocol("HTTP header too large".to_string()));
+            }
             let header = buf[..end].to_vec();
             let remaining = buf[end..].to_vec();
             return Ok((header, remaining));
+        }
+        if buf.len() > MAX_HEADER_SIZE {
+            return Err(AnyTlsError::Protocol("HTTP header too large".to_string()));
         }
     }
 }
